@@ -156,6 +156,71 @@ Section Generic.
   Qed.
 End Generic.
 
+(* ---- the statements, as predicates of an object ---- *)
+Section Statements.
+  Context {Cfg St In Out Saved : Type} (M : machine Cfg St In Out Saved).
+  Variable Ok : Cfg -> Prop.
+  Variable OutEq0 OutEq : Out -> Out -> Prop.
+  Variable SavedEq : Saved -> Saved -> Prop.
+
+  (* For every accepted configuration, first step number, history h1 ++ i :: h2 and hence every stop step
+     (the one with input i): the fresh instance that loads the state written after that step re-executes it with
+     the same observable output (OutEq0), then produces at every later step the output (OutEq) of the run that
+     wrote the state and went on, ends at the same step number and writes the same final state. *)
+  Definition resumes_like_go_on : Prop :=
+    forall c, Ok c -> forall it0 h1 i h2,
+    let P := run M c it0 (h1 ++ [i]) in
+    let A := go_on M c (fst P) h2 in
+    let B := resume M c (state_file M c (fst P)) (i :: h2) in
+    exists oP o0 oB,
+      snd P = oP ++ [o0] /\
+      snd B = (fst o0, snd (hd o0 (snd B))) :: oB /\
+      OutEq0 (snd o0) (snd (hd o0 (snd B))) /\
+      outs_eq OutEq (snd A) oB /\
+      md_it (fst (fst A)) = md_it (fst (fst B)) /\
+      SavedEq (m_save M c (snd (fst A))) (m_save M c (snd (fst B))).
+
+  (* the same against the uninterrupted run U (no state written before the end) *)
+  Definition resumes_like_uninterrupted : Prop :=
+    forall c, Ok c -> forall it0 h1 i h2,
+    let U := run M c it0 (h1 ++ i :: h2) in
+    let P := run M c it0 (h1 ++ [i]) in
+    let B := resume M c (state_file M c (fst P)) (i :: h2) in
+    exists oP o0 oU oB,
+      snd U = oP ++ o0 :: oU /\
+      snd B = (fst o0, snd (hd o0 (snd B))) :: oB /\
+      OutEq0 (snd o0) (snd (hd o0 (snd B))) /\
+      outs_eq OutEq oU oB /\
+      md_it (fst (fst U)) = md_it (fst (fst B)) /\
+      SavedEq (m_save M c (snd (fst U))) (m_save M c (snd (fst B))).
+
+  (* writing the state immediately after loading one reproduces it *)
+  Definition saves_what_it_loaded : Prop :=
+    forall c, Ok c -> forall it0 h,
+    let f := state_file M c (fst (run M c it0 h)) in
+    let f' := state_file M c (mod_load (fst f), m_load M c (snd f)) in
+    fst f' = fst f /\ SavedEq (snd f') (snd f).
+
+  Lemma resumes_uninterrupted_of_go_on :
+    (forall c s, m_after_save M c s = s) -> resumes_like_go_on -> resumes_like_uninterrupted.
+  Proof.
+    intros Hid H c Hc it0 h1 i h2. cbn zeta.
+    destruct (H c Hc it0 h1 i h2) as (oP & o0 & oB & H1 & H2 & H3 & H4 & H5 & H6). cbn zeta in *.
+    destruct (go_on_is_uninterrupted M c it0 h1 i h2 Hid) as [G1 G2]. cbn zeta in G1, G2.
+    replace (h1 ++ i :: h2) with ((h1 ++ [i]) ++ h2) by (rewrite <- app_assoc; reflexivity).
+    exists oP, o0, (snd (go_on M c (fst (run M c it0 (h1 ++ [i]))) h2)), oB.
+    rewrite G2, H1, <- app_assoc. cbn [app]. rewrite G1. repeat split; auto.
+  Qed.
+End Statements.
+
+Theorem resumable_resumes {Cfg St In Out Saved} (M : machine Cfg St In Out Saved) Ok Inv Eqv OutEq0 OutEq SavedEq :
+  resumable M Ok Inv Eqv OutEq0 OutEq SavedEq -> resumes_like_go_on M Ok OutEq0 OutEq SavedEq.
+Proof. intros HR c Hc it0 h1 i h2. exact (resume_vs_go_on M Ok Inv Eqv OutEq0 OutEq SavedEq HR c Hc it0 h1 i h2). Qed.
+
+Theorem resumable_saves {Cfg St In Out Saved} (M : machine Cfg St In Out Saved) Ok Inv Eqv OutEq0 OutEq SavedEq :
+  resumable M Ok Inv Eqv OutEq0 OutEq SavedEq -> saves_what_it_loaded M Ok SavedEq.
+Proof. intros HR c Hc it0 h. exact (save_after_load M Ok Inv Eqv OutEq0 OutEq SavedEq HR c Hc it0 h). Qed.
+
 Arguments r_inv_init {Cfg St In Out Saved M Ok Inv Eqv OutEq0 OutEq SavedEq} _.
 Arguments r_inv_step {Cfg St In Out Saved M Ok Inv Eqv OutEq0 OutEq SavedEq} _.
 Arguments r_reexec {Cfg St In Out Saved M Ok Inv Eqv OutEq0 OutEq SavedEq} _.
